@@ -10,7 +10,7 @@ EXPLANATION = ('Proved for all inputs on the pipeline model (Properties/C03.v): 
                '(line, column) relative to the line list (lines numbered from start line, a BOM at the very start has zero width; multi-line strings and f-string '
                'parts keep the position where they started); ParseKeeps.parse_keeps_leaves - the text-carrying leaves of the tree returned by the engine are '
                'exactly the text-carrying tokens, in order, with the same value, prefix and position, in both modes including error recovery; together '
-               'C03_leaf_positions; EndPos.end_pos_is_walk - the model of Leaf.end_pos (split_lines of the value) is the position reached by walking the value from the start position counting exactly \\n, \\r\\n and \\r as line breaks (tied to tree.py by the endpos stream). Not modelled in Coq (partial): start and end of nodes (computed properties in tree.py), the module end, '
+               'C03_leaf_positions; EndPos.end_pos_is_walk - the model of Leaf.end_pos (split_lines of the value) is the position reached by walking the value from the start position counting exactly \\n, \\r\\n and \\r as line breaks (tied to tree.py by the endpos stream); C03_endmarker_at_end_of_input - the end marker, last token of every stream, sits at offset len(text): on the last line of split_keep text (line count = number of line breaks + 1) at the column where the text ends. Not modelled in Coq (partial): start and end of nodes (computed properties in tree.py), the module end, '
                'get_start_pos_of_prefix, and the placement of zero-width error leaves; these are checked by the positions_true predicate on implementation trees '
                'and by the tok/parse correspondence (positions are part of the canonical token/tree form).')
 LEVEL_TEXT = EXPLANATION
